@@ -1,170 +1,96 @@
-import PsycheModel.Lemmas.Declarators
+import PsycheModel.Props.C07Binder
+import PsycheModel.Lemmas.DeclRoundTrip
 /-!
-# C07 — A declarator yields exactly the C type it spells
+# C07 (continued) — from the TEXT of a declarator to its type: the declarator parser inverts the printer
 
-Statements are about the model of the binder's type stack (`PsycheModel/Declarators.lean`, tied to
-`DeclarationBinder_Declarators.cpp` by the correspondence run on real declarator trees) and hold for declarators of
-any shape and nesting depth, parameter lists of any length (with their own declarators, recursively), and any number
-of declarators per declaration.
+`Props/C07Binder.lean` is about declarator TREES.  Here the trees come from token strings: the model of the declarator
+parser (`PsycheModel/DeclParser.lean`: `parseDeclarator`, direct declarators, the suffix loop, parameter lists, the
+speculative `( abstract-declarator )` and concrete-then-abstract parameter parses; tied to the real parser on every token
+string up to length 4/5 and on random declarators and their mutations) is proved to give back every well-formed declarator
+of any depth from its printed tokens, for both declarator forms, whatever follows.  Composed with the binder theorem:
+the tokens the printer writes for ANY sequence of derivations make the front end (parser model, then binder model)
+declare the name with exactly the derived type.
 -/
-namespace PsycheModel.Declarators
+namespace PsycheModel.DeclParser
+open PsycheModel.Declarators
 
-/-- what the specifiers may leave on the stack: a type that `popTypesUntilNonDerivedDeclaratorType` stops at and that is
-not an array (basic, void, tag, typedef-name types and their qualified versions) -/
-structure PlainBase (T : Ty) : Prop where
-  stop : ∀ below, popUntil (T :: below) = T :: below
-  notArr : ∀ e, T ≠ .arr e
+/-- **The parser inverts the printer** (completeness): every well-formed declarator `d` of form `form` (concrete or abstract),
+of any nesting depth, with parameter lists of any length whose declarators are again arbitrary, followed by any tokens `k`
+that can follow a declarator, is parsed back as exactly `d`, leaving exactly `k` — from some fuel on, for every fuel. -/
+theorem parse_print (form : Form) (d : Decl) (k : List Tok) (hw : wf form d = true) (hk : Fol k = true) (hs : Stop k = true) :
+    ∃ f0, ∀ f, f0 ≤ f → parseD form f (pr d k) = some (d, k) := by
+  obtain ⟨f0, h0⟩ := (rt d form hw).2 k hk hs
+  exact ⟨f0, fun f hf => parseD_le hf h0⟩
 
-theorem plainBase_base (s : String) : PlainBase (.base s) := ⟨fun _ => rfl, by intro e; simp⟩
-theorem plainBase_qual_base (q : Quals) (s : String) : PlainBase (.qual q (.base s)) :=
-  ⟨fun _ => by simp [popUntil, Ty.isDerived], by intro e; simp⟩
+/-- … and (soundness) whatever the fuel, an answer on printed tokens is that answer: running out of fuel is the only other
+outcome.  (The driver runs with fuel `2 * length + 2`; that this suffices is part of what the correspondence run checks:
+the real parser has no fuel.) -/
+theorem parse_print_sound (form : Form) (d : Decl) (k : List Tok) (hw : wf form d = true) (hk : Fol k = true) (hs : Stop k = true)
+    (f : Nat) (x : Decl × List Tok) (h : parseD form f (pr d k) = some x) : x = (d, k) := by
+  obtain ⟨f0, h0⟩ := parse_print form d k hw hk hs
+  exact parseD_fuel_irrelevant h (h0 f0 (Nat.le_refl _))
 
-/-- **Main theorem.**  For every declaration context, every plain base type, every list of declarators of any shape and
-any stack `below` the declaration: the binder terminates normally, leaves the stack exactly as it found it, and binds —
-in this order — for each declarator the symbol kind, the name written in the declarator and the type obtained by applying
-its derivations inside-out to the *unmodified* base type (parameters adjusted per 6.7.6.3p7-8 and flagged), followed by the
-symbols of the parameter declarations it contains. -/
-theorem bindDeclarators_eq_spec (ctx : Ctx) (T : Ty) (hT : PlainBase T) (below : List Ty) :
-    ∀ ds : List Decl, bindDeclarators ctx ds (T :: below) = some (T :: below, specSyms ctx T ds)
-  | [] => rfl
-  | d :: ds => by
-    obtain ⟨st1, h1, h2, h3⟩ := visitD_spec ctx d T below (topOK_of_not_arr hT.notArr)
-    cases st1 with
-    | nil => simp at h2
-    | cons ty tl =>
-      simp only [List.head?_cons, Option.some.injEq] at h2
-      subst h2
-      have ih := bindDeclarators_eq_spec ctx T hT below ds
-      simp only [bindDeclarators, h1, h3, hT.stop, ih, specSyms]
+theorem parseDeclarator_print (d : Decl) (hw : wf .concrete d = true) :
+    parseDeclarator (pr d [.stop]) = none ∨ parseDeclarator (pr d [.stop]) = some (d, [.stop]) := by
+  unfold parseDeclarator
+  cases h : parseD .concrete (2 * (pr d [.stop]).length + 2) (pr d [.stop]) with
+  | none => exact .inl rfl
+  | some x => exact .inr (by rw [parse_print_sound .concrete d [.stop] hw rfl rfl _ x h])
 
-theorem bindDeclaration_eq_spec (ctx : Ctx) (T : Ty) (hT : PlainBase T) (below : List Ty) (ds : List Decl) :
-    bindDeclaration ctx T ds below = some (below, specSyms ctx T ds) := by
-  simp [bindDeclaration, bindDeclarators_eq_spec ctx T hT below ds]
+/-- the speculative parses never change the outcome: a printed ABSTRACT declarator is not also a concrete one (so the
+order "concrete first" of `parseParameterDeclaration` is immaterial) -/
+theorem abstract_is_not_concrete (d : Decl) (k : List Tok) (hw : wf .abstract d = true) (hk : Fol k = true) (f : Nat) :
+    parseD .concrete f (pr d k) = none := abstract_not_concrete d f k hw hk
 
-/-- every declarator of a declaration sees the unmodified base type: the symbols of `T d₁, …, dₙ;` are those of the
-separate declarations `T d₁; …; T dₙ;` -/
-theorem specSyms_append (ctx : Ctx) (T : Ty) (ds es : List Decl) :
-    specSyms ctx T (ds ++ es) = specSyms ctx T ds ++ specSyms ctx T es := by
-  induction ds with
-  | nil => rfl
-  | cons d ds ih => simp [specSyms, ih]
+/-! ### text → tree → type -/
 
-theorem declarators_independent (ctx : Ctx) (T : Ty) (hT : PlainBase T) (below : List Ty) (ds es : List Decl) :
-    (bindDeclaration ctx T (ds ++ es) below).map (·.2) =
-      (do let a ← bindDeclaration ctx T ds below; let b ← bindDeclaration ctx T es below; pure (a.2 ++ b.2)) := by
-  simp [bindDeclaration_eq_spec _ _ hT, specSyms_append]
+/-- a derivation the printer can write: parameter declarators well-formed, `...` only after a parameter -/
+def derivOK : Deriv → Bool
+  | .fn ps ell => wfPs ps && (!ell || !psNil ps)
+  | _ => true
 
-/-- a function's parameter symbols and parameter types follow the same rule, adjusted -/
-theorem parameters_eq_spec (ps : Params) : visitPs ps = some (denotePs ps, symsOfPs ps) := visitPs_spec ps
+theorem isPtr_eq (d : Decl) : isPtr d = d.isPtr := by cases d <;> rfl
 
-/-! ### redundant parentheses -/
+theorem wf_parenIfPtr (d : Decl) (h : wf .concrete d = true) :
+    wf .concrete (parenIfPtr d) = true ∧ isPtr (parenIfPtr d) = false := by
+  unfold parenIfPtr
+  cases d <;> simp_all [Decl.isPtr, wf, isPtr, isLeafAbstract]
 
-mutual
-theorem denote_strip : ∀ (d : Decl) (T : Ty), denote (strip d) T = denote d T
-  | .ident _, _ => rfl
-  | .abstract, _ => rfl
-  | .paren d, T => by simpa [strip, denote] using denote_strip d T
-  | .bitfield d, T => by simpa [strip, denote] using denote_strip d T
-  | .ptr qs d, T => by simpa [strip, denote] using denote_strip d _
-  | .arr d, T => by simpa [strip, denote] using denote_strip d _
-  | .fn d ps ell, T => by simp only [strip, denote, denotePs_strip ps]; exact denote_strip d _
-theorem denotePs_strip : ∀ (ps : Params), denotePs (stripPs ps) = denotePs ps
-  | .nil => rfl
-  | .cons b d rest => by simp only [stripPs, denotePs, denote_strip d, denotePs_strip rest]
-end
-
-mutual
-theorem nestedOf_strip : ∀ (d : Decl) (T : Ty), nestedOf (strip d) T = nestedOf d T
-  | .ident _, _ => rfl
-  | .abstract, _ => rfl
-  | .paren d, T => by simpa [strip, nestedOf] using nestedOf_strip d T
-  | .bitfield d, T => by simpa [strip, nestedOf] using nestedOf_strip d T
-  | .ptr qs d, T => by simpa [strip, nestedOf] using nestedOf_strip d _
-  | .arr d, T => by simpa [strip, nestedOf] using nestedOf_strip d _
-  | .fn d ps ell, T => by
-    simp only [strip, nestedOf, denotePs_strip ps, symsOfPs_strip ps]; rw [nestedOf_strip d]
-theorem symsOfPs_strip : ∀ (ps : Params), symsOfPs (stripPs ps) = symsOfPs ps
-  | .nil => rfl
-  | .cons b d rest => by simp only [stripPs, symsOfPs, denote_strip d, nestedOf_strip d, symsOfPs_strip rest]
-end
-
-theorem specSyms_strip (ctx : Ctx) (T : Ty) (ds : List Decl) : specSyms ctx T (ds.map strip) = specSyms ctx T ds := by
-  induction ds with
-  | nil => rfl
-  | cons d ds ih => simp [specSyms, denote_strip, nestedOf_strip, ih]
-
-/-- **Redundant parentheses never change what is bound** — anywhere in the declarators or in their parameter lists. -/
-theorem parentheses_irrelevant (ctx : Ctx) (T : Ty) (hT : PlainBase T) (below : List Ty) (ds : List Decl) :
-    bindDeclaration ctx T (ds.map strip) below = bindDeclaration ctx T ds below := by
-  simp [bindDeclaration_eq_spec _ _ hT, specSyms_strip]
-
-/-! ### the inverse printer: every type has a declarator, and the binder gives it back -/
-
-theorem denote_parenIfPtr (d : Decl) (T : Ty) : denote (parenIfPtr d) T = denote d T := by
-  unfold parenIfPtr; split <;> simp [denote]
-
-theorem nestedOf_parenIfPtr (d : Decl) (T : Ty) : nestedOf (parenIfPtr d) T = nestedOf d T := by
-  unfold parenIfPtr; split <;> simp [nestedOf]
-
-theorem denote_build (inner : Decl) : ∀ (ds : List Deriv) (B : Ty),
-    denote (build ds inner) B = denote inner (applyDerivs ds B)
+theorem wf_build (n : String) : ∀ ds : List Deriv, (∀ x ∈ ds, derivOK x = true) → wf .concrete (build ds (.ident n)) = true
   | [], _ => rfl
-  | .ptr qs :: ds, B => by simp only [build, denote, applyDerivs, Deriv.apply]; exact denote_build inner ds _
-  | .arr :: ds, B => by
-    simp only [build, denote, denote_parenIfPtr, applyDerivs, Deriv.apply]; exact denote_build inner ds _
-  | .fn ps ell :: ds, B => by
-    simp only [build, denote, denote_parenIfPtr, applyDerivs, Deriv.apply]; exact denote_build inner ds _
+  | .ptr qs :: ds, h => by
+    simp only [build, wf]; exact wf_build n ds (fun x hx => h x (List.mem_cons_of_mem _ hx))
+  | .arr :: ds, h => by
+    have := wf_parenIfPtr _ (wf_build n ds (fun x hx => h x (List.mem_cons_of_mem _ hx)))
+    simp [build, wf, this.1, this.2]
+  | .fn ps ell :: ds, h => by
+    have := wf_parenIfPtr _ (wf_build n ds (fun x hx => h x (List.mem_cons_of_mem _ hx)))
+    have hd : derivOK (.fn ps ell) = true := h _ (List.mem_cons_self ..)
+    simp only [derivOK, Bool.and_eq_true] at hd
+    simp [build, wf, this.1, this.2, hd.1, hd.2]
 
-/-- **Round trip through the declarator syntax**: for every base type and every sequence of pointer (with any qualifiers),
-array and function (with any parameter declarations) derivations, of any length, the declarator the printer builds around
-the name `n` makes the binder declare `n` with exactly that derived type; in a parameter list the array / function
-adjustment applies on top. -/
-theorem bind_build (ctx : Ctx) (T : Ty) (hT : PlainBase T) (below : List Ty) (ds : List Deriv) (n : String) :
-    ∃ nested, bindDeclaration ctx T [build ds (.ident n)] below =
-      some (below, ⟨ctx.kindOf (ctx.adj (applyDerivs ds T)), n, ctx.adj (applyDerivs ds T)⟩ :: nested) := by
-  refine ⟨nestedOf (build ds (.ident n)) T ++ [], ?_⟩
-  simp [bindDeclaration_eq_spec _ _ hT, specSyms, denote_build, denote]
+/-- **From text to type.**  For every base type, every sequence of derivations of any length (pointers with any
+qualifiers, arrays, functions with any well-formed parameter declarations) and every name: the tokens the printer writes
+for the declarator are parsed (for every sufficient fuel) into a tree from which the binder declares that name with exactly
+the derived type (adjusted in parameter context), leaving its stack as it found it. -/
+theorem text_to_type (ctx : Ctx) (T : Ty) (hT : PlainBase T) (below : List Ty) (ds : List Deriv) (n : String)
+    (hds : ∀ x ∈ ds, derivOK x = true) :
+    ∃ f0 nested, ∀ f, f0 ≤ f →
+      (parseD .concrete f (pr (build ds (.ident n)) [.stop])).bind (fun p => bindDeclaration ctx T [p.1] below) =
+        some (below, ⟨ctx.kindOf (ctx.adj (applyDerivs ds T)), n, ctx.adj (applyDerivs ds T)⟩ :: nested) := by
+  obtain ⟨f0, h0⟩ := parse_print .concrete (build ds (.ident n)) [.stop] (wf_build n ds hds) rfl rfl
+  obtain ⟨nested, hb⟩ := bind_build ctx T hT below ds n
+  exact ⟨f0, nested, fun f hf => by rw [h0 f hf]; exact hb⟩
 
-/-- qualifiers written after a `*` qualify that pointer and nothing else -/
-theorem qualifier_level (qs : List Qual) (ds : List Deriv) (B : Ty) (n : String) :
-    denote (build (ds ++ [.ptr qs]) (.ident n)) B = (n, qualify qs (.ptr .none (applyDerivs ds B))) := by
-  rw [denote_build]
-  have : ∀ (ds : List Deriv) (B : Ty), applyDerivs (ds ++ [.ptr qs]) B = qualify qs (.ptr .none (applyDerivs ds B)) := by
-    intro ds
-    induction ds with
-    | nil => intro B; rfl
-    | cons d ds ih => intro B; simp only [List.cons_append, applyDerivs, ih]
-  simp [denote, this]
-
-/-- parameter adjustment as the property words it -/
-theorem param_array_adjusted (b : String) (ds : List Deriv) (n : String) :
-    ∃ syms, visitPs (.cons b (build (ds ++ [.arr]) (.ident n)) .nil) =
-      some ([.ptr .arr (applyDerivs ds (.base b))], syms) := by
-  have : ∀ (ds : List Deriv) (B : Ty), applyDerivs (ds ++ [.arr]) B = .arr (applyDerivs ds B) := by
-    intro ds
-    induction ds with
-    | nil => intro B; rfl
-    | cons d ds ih => intro B; simp only [List.cons_append, applyDerivs, ih]
-  refine ⟨symsOfPs (.cons b (build (ds ++ [.arr]) (.ident n)) .nil), ?_⟩
-  rw [visitPs_spec]; simp [denotePs, denote_build, denote, this, adjust]
-
-/-! ### the premises are satisfiable and the statements are not vacuous -/
-
-/-- `int (*fp[3])(char a[2], int f(void), ...), *p;` -/
+/-- non-vacuity: `(*fp[3])(int a, char *, ...)` printed, parsed and bound in file scope -/
 example :
-    bindDeclaration .object (.base "int")
-      [ .fn (.paren (.ptr [] (.arr (.ident "fp"))))
-          (.cons "char" (.arr (.ident "a")) (.cons "int" (.fn (.ident "f") (.cons "void" .abstract .nil) false) .nil)) true,
-        .ptr [.const] (.ident "p") ] [] =
-    some ([],
-      [ ⟨.variable, "fp", .arr (.ptr .none (.fn (.base "int")
-            [.ptr .arr (.base "char"), .ptr .fn (.fn (.base "int") [.base "void"] false)] true))⟩,
-        ⟨.parameter, "a", .ptr .arr (.base "char")⟩,
-        ⟨.parameter, "f", .ptr .fn (.fn (.base "int") [.base "void"] false)⟩,
-        ⟨.parameter, "", .base "void"⟩,
-        ⟨.variable, "p", .qual { c := true } (.ptr .none (.base "int"))⟩ ]) := by
-  rfl
+    let ps : Params := .cons "int" (.ident "a") (.cons "char" (.ptr [] .abstract) .nil)
+    let d := build [.fn ps true, .ptr [], .arr] (.ident "fp")
+    wf .concrete d = true ∧
+    pr d [.stop] = [.lparen, .star, .ident "fp", .lbrack, .rbrack, .rparen, .lparen, .spec "int", .ident "a", .comma, .spec "char", .star,
+                    .comma, .ellipsis, .rparen, .stop] ∧
+    parseDeclarator (pr d [.stop]) = some (d, [.stop]) := by
+  intro ps d
+  exact ⟨rfl, rfl, rfl⟩
 
-example : PlainBase (.qual { c := true } (.base "int")) := plainBase_qual_base _ _
-
-end PsycheModel.Declarators
+end PsycheModel.DeclParser
